@@ -175,6 +175,53 @@ def in_support(family, v, par):
 # --------------------------------------------------------------------------------------------
 
 
+def jaxpr_signature(jaxpr):
+    """structural fingerprint of a jaxpr (primitives, data flow, literal values, static parameters); two equal
+    fingerprints + equal constants = the same staged computation.  (str(jaxpr) is far too slow for the
+    hypergeometric series inside some TFP families.)"""
+    import hashlib
+
+    from jax import core as jcore
+    from jax.extend import core as xcore
+
+    Literal = getattr(xcore, "Literal", None) or getattr(jcore, "Literal")
+    h = hashlib.blake2b(digest_size=16)
+
+    def walk(jp):
+        ids = {}
+
+        def vid(v):
+            if isinstance(v, Literal):
+                return f"L{v.val!r}:{v.aval}"
+            return f"v{ids.setdefault(id(v), len(ids))}:{v.aval}"
+
+        h.update(("in " + " ".join(vid(v) for v in list(jp.constvars) + list(jp.invars))).encode())
+        for eqn in jp.eqns:
+            h.update((eqn.primitive.name + "(" + " ".join(vid(v) for v in eqn.invars) + ")->" + " ".join(vid(v) for v in eqn.outvars)).encode())
+            for k in sorted(eqn.params):
+                sub(k, eqn.params[k])
+        h.update(("out " + " ".join(vid(v) for v in jp.outvars)).encode())
+
+    def sub(k, p):
+        h.update(k.encode())
+        if hasattr(p, "jaxpr") and hasattr(p, "consts"):  # ClosedJaxpr
+            walk(p.jaxpr)
+            for c in p.consts:
+                h.update(np.asarray(c).tobytes())
+        elif hasattr(p, "eqns"):
+            walk(p)
+        elif isinstance(p, (tuple, list)):
+            for i, q in enumerate(p):
+                sub(f"{k}[{i}]", q)
+        elif callable(p):
+            h.update(getattr(p, "__name__", type(p).__name__).encode())
+        else:
+            h.update(repr(p).encode())
+
+    walk(jaxpr)
+    return h.hexdigest()
+
+
 def _points(row):
     import jax.numpy as jnp
 
@@ -240,7 +287,7 @@ def _run(row, tier, seed):
             return tr.get_choices().get_value()
 
         done = set()
-        jit_cache, ops_cache = {}, {}
+        jit_cache, ops_cache, drawn = {}, {}, {}
         for pt, ss, form in _combos(tier):
             if form not in row["forms"]:
                 form = row["forms"][0]
@@ -289,7 +336,7 @@ def _run(row, tier, seed):
                     return cval(tr), tr.get_score(), tr.get_retval()
 
                 jsim = jit_cache[(ss, form, pt == "C")] = jax.jit(sim)
-            samples = []
+            samples, scores = [], []
             for ki, k in enumerate(keys):
                 out = guarded("simulate", lambda: jsim(k, params))
                 if out is None:
@@ -297,6 +344,7 @@ def _run(row, tier, seed):
                 v, sc, rv = out
                 vn = np.asarray(v)
                 samples.append(v)
+                scores.append(sc)
                 o = oracle(params, v)
                 ctx.ev((row["id"], pt, ss, form, "simulate", ki), nontrivial=math.isfinite(o))
                 if vn.shape != exp_shape:
@@ -375,7 +423,7 @@ def _run(row, tier, seed):
             # decides "same trace for the same key" for ALL keys; if the texts differ, both are executed.
             def staged(fn):
                 cj = jax.make_jaxpr(fn)(keys[0])
-                return str(cj.jaxpr), [np.asarray(c) for c in cj.consts]
+                return jaxpr_signature(cj.jaxpr), [np.asarray(c) for c in cj.consts]
 
             def same_trace(op, fa, fb, what):
                 ctx.ev((row["id"], pt, ss, form, op, what), nontrivial=True)
@@ -395,7 +443,14 @@ def _run(row, tier, seed):
                 return cval(tr), tr.get_score()
 
             main = lambda k: tr_out(gf.simulate(k, args))
-            if form == "kw" and "pos" in row["forms"]:
+            drawn[(pt, ss, form)] = [(np.asarray(a), np.asarray(b)) for a, b in zip(samples, scores)]
+            twin = drawn.get((pt, ss, "pos" if form == "kw" else "kw"))
+            if twin is not None:  # the same keys through the other invocation form: bit-identical traces
+                ctx.ev((row["id"], pt, ss, "kw_vs_pos", "samples"), nontrivial=True)
+                ctx.note("kw_vs_pos_sample_comparisons", KEYS)
+                if not all(np.array_equal(a[0], b[0]) and np.array_equal(a[1], b[1]) for a, b in zip(drawn[(pt, ss, form)], twin)):
+                    fail("kw_vs_pos", "trace", what="4 keys", this=drawn[(pt, ss, form)][0], other=twin[0])
+            elif form == "kw" and "pos" in row["forms"]:
                 same_trace("kw_vs_pos", main, lambda k: tr_out(gf.simulate(k, mk_args("pos", params, ss))), "direct")
             kw = dict(zip(names, params)) if form == "kw" else {}
             pos = tuple(params) if form == "pos" else ()
